@@ -54,15 +54,18 @@ def run_property(prop, tier, seed, jobs=16, replay=None, keep_tmp=False):
         plan = [dict(rp['params'], _replay=rp.get('violation'))]
         seed = rp.get('seed', seed)
         tier = rp.get('tier', tier)
+        replay_index, replay_n = rp.get('shard') or 0, rp.get('nshards') or 1
     else:
         plan = mod.plan(tier, seed)
     n = len(plan)
+    if replay:
+        n = max(replay_n, replay_index + 1)
     scratch_root = os.environ.get('VERIF_SCRATCH') or None
     tmp = tempfile.mkdtemp(prefix='tdv-%s-' % prop, dir=scratch_root)
     timeout = getattr(mod, 'TIMEOUT_S', DEFAULT_TIMEOUT).get(tier, DEFAULT_TIMEOUT[tier])
     if hasattr(mod, 'extra_env'):
         extra_env.update(mod.extra_env(tier, tmp) or {})
-    pending = list(enumerate(plan))
+    pending = list(enumerate(plan)) if not replay else [(replay_index, plan[0])]
     running, dumps, problems = [], [], []
     try:
         while pending or running:
@@ -99,10 +102,10 @@ def run_property(prop, tier, seed, jobs=16, replay=None, keep_tmp=False):
             r['p'].kill()
         if not keep_tmp:
             shutil.rmtree(tmp, ignore_errors=True)
-    return decide(mod, prop, tier, seed, dumps, problems, time.time() - t0, post)
+    return decide(mod, prop, tier, seed, dumps, problems, time.time() - t0, post, replay=bool(replay))
 
 
-def decide(mod, prop, tier, seed, dumps, problems, wall, post=None):
+def decide(mod, prop, tier, seed, dumps, problems, wall, post=None, replay=False):
     shard_params = {d['shard']: d.pop('_params', None) for d in dumps}
     shard_of_unknown = []
     for d in dumps:
@@ -142,6 +145,8 @@ def decide(mod, prop, tier, seed, dumps, problems, wall, post=None):
     if m['extra'].get('mechanisms_unresolved'):
         problems.append('anchored mechanisms not found in the tree: %s' % m['extra']['mechanisms_unresolved'])
     need = getattr(mod, 'MIN_NONTRIVIAL', {}).get(tier, 2)
+    if replay:
+        need = 0      # one shard of the original run: the volume conditions belong to the full run
     if distinct_nt < need:
         problems.append('only %d distinct non-trivial cases (minimum %d)' % (distinct_nt, need))
     # --- verdict
@@ -153,7 +158,7 @@ def decide(mod, prop, tier, seed, dumps, problems, wall, post=None):
             path = os.path.join(env.REPLAY, '%s-%s-s%d-%d.json' % (prop, tier, seed, k))
             sh = v.pop('_shard', None)
             with open(path, 'w') as f:
-                json.dump({'property': prop, 'tier': tier, 'seed': seed, 'shard': sh,
+                json.dump({'property': prop, 'tier': tier, 'seed': seed, 'shard': sh, 'nshards': len(shard_params),
                            'params': shard_params.get(sh), 'violation': v}, f, indent=1, default=repr)
             replay_paths.append(path)
             lines.append('VIOLATION property=%s replay=%s' % (prop, path))
